@@ -108,8 +108,10 @@ func (v *Vue) evalSlot(ctx VueContext, node *html.Node, slotScope *SlotScope) ([
 				}
 				result = append(result, children...)
 			} else {
-				// Use the provided content as-is
-				result = append(result, slotContent.Nodes...)
+				// Use the provided content as-is. Every use gets its own copy: the caller links
+				// the returned nodes into the output tree, and the same slot content may be
+				// placed several times (repeated <slot>, loops, repeated includes).
+				result = append(result, cloneNodes(slotContent.Nodes)...)
 			}
 
 			return result, nil
@@ -120,8 +122,8 @@ func (v *Vue) evalSlot(ctx VueContext, node *html.Node, slotScope *SlotScope) ([
 	if inheritedSlotScopeData, ok := ctx.stack.EnvMap()["__slotScope__"]; ok {
 		if inheritedSlotScope, ok := inheritedSlotScopeData.(*SlotScope); ok {
 			if slotContent := inheritedSlotScope.GetSlot(slotName); slotContent != nil {
-				// Use the inherited slot content directly (already parsed as DOM nodes)
-				return slotContent.Nodes, nil
+				// Use the inherited slot content (already parsed as DOM nodes); copied per use, see above
+				return cloneNodes(slotContent.Nodes), nil
 			}
 		}
 	}
@@ -133,4 +135,13 @@ func (v *Vue) evalSlot(ctx VueContext, node *html.Node, slotScope *SlotScope) ([
 	}
 
 	return []*html.Node{}, nil
+}
+
+// cloneNodes returns deep copies of nodes, detached from the originals' siblings and parents.
+func cloneNodes(nodes []*html.Node) []*html.Node {
+	out := make([]*html.Node, 0, len(nodes))
+	for _, n := range nodes {
+		out = append(out, helpers.DeepCloneNode(n))
+	}
+	return out
 }
